@@ -11,6 +11,17 @@ Open Scope Z_scope.
 Definition check_pad (c : nat * nat * nat * nat * zmat * zmat) : bool :=
   let '(h, w, kh, kw, psf, pad) := c in rm_eqb h w (gen_pad_psf ZR h w kh kw (of_list psf)) pad.
 """
+HEADER_S = """From Coq Require Import ZArith List Bool Arith. Import ListNotations.
+From QV Require Import CRing Sums Quat Mat NumpySem Exec.
+From QVT Require Import Conv Tikhonov Bccb.
+From B Require Import Gen_C17 Gen_C17s.
+Open Scope Z_scope.
+(* (H, W, kH, kW, psf, A returned by _build_bccb_matrix) *)
+Definition check_dense (c : nat * nat * nat * nat * zmat * zmat) : bool :=
+  let '(h, w, kh, kw, psf, A) := c in rm_eqb (h * w) (h * w) (gen_build_bccb_matrix ZR h w kh kw (of_list psf)) A.
+Definition check_csr (c : nat * nat * nat * nat * zmat * zmat) : bool :=
+  let '(h, w, kh, kw, psf, A) := c in rm_eqb (h * w) (h * w) (gen_build_bccb_csr ZR (Z.eqb 0) h w kh kw (of_list psf)) A.
+"""
 
 def pad_ref(psf, H, W):
     kH, kW = len(psf), len(psf[0]); out = [[0] * W for _ in range(H)]
@@ -59,13 +70,14 @@ def run(ctx):
                                'oracle': 'exact centred periodic convolution / explicit BCCB matrix of the centred kernel'})
     rng = ctx.rng
     sizes = [(1, 1), (2, 3), (3, 3), (4, 5), (5, 6)] if ctx.quick() else [(h, w) for h in range(1, 8) for w in range(1, 9) if h * w <= 42]
-    pterms = []
+    pterms = []; dterms = []; cterms = []
     for (H, W) in sizes:
         ks = [(kh, kw) for kh in range(1, H + 1) for kw in range(1, W + 1)]
         if ctx.quick() and len(ks) > 12: ks = sorted(set(ks[:1] + rng.sample(ks, 9) + [(H, W), (min(3, H), min(3, W)), (1, W), (H, 1), (min(2, H), min(5, W))]))
         for (kH, kW) in ks:
             psf_i = [[1 + u * kW + v for v in range(kW)] for u in range(kH)]      # tagged, asymmetric
             psf = np.array(psf_i, dtype=float)
+            psf_z = [list(r) for r in psf_i]; psf_z[-1][-1] = 0
             inp = {'image': [H, W], 'kernel': [kH, kW], 'psf': 'psf[u][v] = 1 + u*kW + v'}
             try: pad = qslst._pad_psf(psf, (H, W))
             except Exception as e: viol('C17:pad:raises', f'_pad_psf raised {e!r}', inp); continue
@@ -93,6 +105,8 @@ def run(ctx):
                 A = app._build_bccb_matrix(psf, H, W); Acsr = app._build_bccb_csr(psf, H, W).toarray()
                 Aref = np.array(bccb_ref(ref), dtype=float)
                 if not np.array_equal(A, Aref): viol('C17:builder:dense', 'dense BCCB builder is not the centred convolution operator', inp)
+                if H * W <= 12 and np.array_equal(Acsr, np.round(Acsr)): cterms.append(f'({H}%nat, {W}%nat, {kH}%nat, {kW}%nat, {cm.zmat_lit(psf_z)}, {cm.zmat_lit(app._build_bccb_csr(np.array(psf_z, dtype=float), H, W).toarray().astype(int).tolist())})')
+                if H * W <= 12 and float(np.max(np.abs(A))) < 2 ** 40 and np.array_equal(A, np.round(A)): dterms.append(f'({H}%nat, {W}%nat, {kH}%nat, {kW}%nat, {cm.zmat_lit(psf_i)}, {cm.zmat_lit(A.astype(int).tolist())})')
                 if not np.array_equal(Acsr, Aref): viol('C17:builder:csr', 'sparse BCCB builder is not the centred convolution operator', inp)
                 if not np.array_equal(A, Acsr): viol('C17:builder:agree', 'dense and sparse builders differ', inp)
                 pn = psf / psf.sum(); An = Aref / psf.sum()
@@ -151,6 +165,13 @@ def run(ctx):
             ctx.cov['traces_validated_against_impl'] += len(res)
             bad = [i for i, r in enumerate(res) if not r]
             if bad: ctx.broken.append(f'generated _pad_psf model and implementation disagree on {len(bad)} case(s), first: {pterms[bad[0]][:300]}')
+    if info is not None and dterms and os.path.exists(os.path.join(ctx.build, 'Gen_C17s.vo')):
+        for nm, terms, fn in (('dense', dterms, 'check_dense'), ('csr', cterms, 'check_csr')):
+            res = cm.run_cases(ctx, 'cases_' + nm, HEADER_S, terms, fn, shard=40)
+            if res is not None:
+                ctx.cov['traces_validated_against_impl'] += len(res)
+                bad = [i for i, r in enumerate(res) if not r]
+                if bad: ctx.broken.append(f'generated {nm} builder model and implementation disagree on {len(bad)} case(s), first: {terms[bad[0]][:300]}')
     ctx.cov['rule'] = ('image sizes ' + str(sizes[:6]) + ('...' if len(sizes) > 6 else '') + ' x kernel sizes up to the image (even, odd, 1x1, strips; a sample of 12 per image in the quick tier, all in the thorough tier), tagged asymmetric integer kernels: '
                        'padding compared exactly with the centred-wrap definition and with the generated Gallina model; blur vs exact periodic convolution; dense/CSR builders vs the explicit BCCB matrix; '
                        'restoration vs the normal equations for lambda in {1e-3,1,10}, matrix path vs FFT path, linearity, channel independence, lambda=0 inverse. Distinct = (image, kernel) size pair.')
